@@ -110,7 +110,8 @@ fn run_case_async(cx: &Ctx, kv: &Kv) -> Run {
     let req = unhex(ks(kv, "req"));
     let cap = kn(kv, "cap") as usize;
     let fusedev = ks(kv, "t") == "fusedev";
-    let server = Server::new(ScriptFs::new(kv.clone()));
+    // over `Arc<FS>`, as servers are deployed (`Server<Arc<Vfs>>`): the hand-written wrapper is on the path
+    let server = Server::new(std::sync::Arc::new(ScriptFs::new(kv.clone())));
     let mut run = Run { calls: String::new(), sys: vec![], area: String::new(), area_raw: vec![], ret: String::new(), minor_after: String::new(), panicked: false, oob: false, dirty: vec![] };
     if let Some(pm) = kv.get("pre_minor") {
         let minor: u32 = pm.parse().unwrap_or(33);
@@ -243,7 +244,8 @@ fn run_case(cx: &Ctx, kv: &Kv) -> Run {
     let cap = kn(kv, "cap") as usize;
     let fusedev = ks(kv, "t") == "fusedev";
     let fs = ScriptFs::new(kv.clone());
-    let server = Server::new(fs);
+    // over `Arc<FS>`, as servers are deployed (`Server<Arc<Vfs>>`): the hand-written wrapper is on the path
+    let server = Server::new(std::sync::Arc::new(fs));
     let mut run = Run { calls: String::new(), sys: vec![], area: String::new(), area_raw: vec![], ret: String::new(), minor_after: String::new(), panicked: false, oob: false, dirty: vec![] };
     // optional pre-INIT to set the negotiated minor version
     if let Some(pm) = kv.get("pre_minor") {
@@ -380,7 +382,8 @@ fn client_reply(run: &Run, fusedev: bool) -> Option<Vec<u8>> {
 /// notifications: Server::notify_inval_entry / notify_inval_inode / notify_resend
 fn exec_notify(cx: &Ctx, line: &str, kv: &Kv, out: &mut Out) -> String {
     let cap = kn(kv, "cap") as usize;
-    let server = Server::new(ScriptFs::new(kv.clone()));
+    // over `Arc<FS>`, as servers are deployed (`Server<Arc<Vfs>>`): the hand-written wrapper is on the path
+    let server = Server::new(std::sync::Arc::new(ScriptFs::new(kv.clone())));
     let mut scratch = vec![0u8; cap];
     let kind = ks(kv, "notify").to_string();
     let name = unhex(ks(kv, "name"));
